@@ -158,11 +158,13 @@ async def _t_replay_async(edge_ids):
     g = _TG
     out = []
     steps = 0
-    todo = [(ei, 0) for ei in edge_ids]
+    todo = [(item, 0) for item in edge_ids]
     while todo:
-        ei, attempt = todo.pop()
+        item, attempt = todo.pop()
+        # an item is an edge, or (loop edge, following edge) for edges that leave the abstract state unchanged
+        loop, ei = item if isinstance(item, tuple) else (None, item)
         e = g.edges[ei]
-        path = g.path_to(e["_s"])
+        path = g.path_to(e["_s"]) + ([g.edges[loop]] if loop is not None else [])
         init = _TINITS[common.skey((path[0] if path else e)["src"])]
         pieces = init["pieces"]
         rcv = Receiver(init["init"]["proto"])
@@ -183,7 +185,7 @@ async def _t_replay_async(edge_ids):
             await _cancel_tasks()
             if attempt >= 3:
                 raise MachineryError("transfer replay keeps hitting the 5 s real-time timeout of the pump (machine starved)")
-            todo.append((ei, attempt + 1))
+            todo.append((item, attempt + 1))
             continue
         done, asm = rcv.observe()
         obs = e["obs"]
@@ -282,6 +284,11 @@ def _transfer_b1(chk: Check, xl, tl, cs, extra, label):
     ids = g.reachable_edges()
     if len(ids) != len(g.edges):
         raise MachineryError("unreachable edges in Transfer export")
+    # `arrivals` is part of the state, so a duplicate or foreign packet is never a self-loop here: every such packet is
+    # already followed by every other packet on the tree paths; selfloop_pairs() is empty by construction
+    pairs = g.selfloop_pairs()
+    chk.cov["b1_selfloop_pairs_replayed"] = chk.cov.get("b1_selfloop_pairs_replayed", 0) + len(pairs)
+    ids = ids + pairs
     chunks = [ids[i::common.NCPU * 2] for i in range(common.NCPU * 2)]
     results = common.parallel_map(_t_replay_chunk, [c for c in chunks if c])
     chk.count(sum(r[0] for r in results))
@@ -1164,9 +1171,11 @@ def _life_replay_chunk(edge_ids):
 
     def load(b, keep_raw):
         return se.BufferReader("!", b).read(LLMeshSerializer(include_raw_segments=keep_raw))
-    for ei in edge_ids:
+    for item in edge_ids:
+        # (loop edge, following edge): serialising twice / re-parsing the same bytes again leaves the abstract state unchanged
+        loop, ei = item if isinstance(item, tuple) else (None, item)
         e = g.edges[ei]
-        hist = [pe["act"] for pe in g.path_to(e["_s"])] + [e["act"]]
+        hist = [pe["act"] for pe in g.path_to(e["_s"])] + ([g.edges[loop]["act"]] if loop is not None else []) + [e["act"]]
         model, data, cur = _life_build(), None, {s: 0 for s in _LIFE_SEGS}
         bad = []
         for a in hist:
@@ -1226,6 +1235,9 @@ def _mesh_life(chk: Check):
     g = Graph(recs)
     _LG = g
     ids = g.reachable_edges()
+    pairs = g.selfloop_pairs()
+    chk.cov["b1_selfloop_pairs_replayed"] = chk.cov.get("b1_selfloop_pairs_replayed", 0) + len(pairs)
+    ids = ids + pairs
     results = common.parallel_map(_life_replay_chunk, [c for c in (ids[i::common.NCPU * 2] for i in range(common.NCPU * 2)) if c])
     chk.count(sum(r[0] for r in results))
     chk.cov["traces_validated_against_impl"] += len(ids)
